@@ -71,36 +71,101 @@ def own_status(node, soll):
     return None
 
 
+def documented_status(fulfilled, indicator, soll):
+    """the documented mapping requirement indicator x requirement outcome -> status ('raises' = the documented NotImplementedError; None = not fixed
+    by the documentation). indicator: 'MUSS' | 'SOLL' | 'KANN' | 'X' | 'O' | 'U'"""
+    if indicator == "SOLL":
+        indicator = "MUSS" if soll else "KANN"
+    if fulfilled is False:
+        return "IS_FORBIDDEN"
+    mandatory = indicator in ("MUSS", "X", "O", "U")
+    if fulfilled is None:
+        return "raises" if mandatory else None
+    return "IS_REQUIRED" if mandatory else "IS_OPTIONAL"
+
+
+def mapping_oracle(ctx):
+    """every requirement indicator (all spellings of the six) x every requirement outcome x both flags on a single segment-level node and a single
+    free-text data element, through validate_segment_level / validate_segment: the reported status is the documented one"""
+    from maus.models.edifact_components import DataElementFreeText, Segment
+    from ahbicht.validation.validation import validate_segment, validate_segment_level
+
+    n = 0
+    spell = {"MUSS": ("Muss", "M", "muss"), "SOLL": ("Soll", "S", "sOLL"), "KANN": ("Kann", "K", "k"), "X": ("X", "x"), "O": ("O", "o"), "U": ("U", "u")}
+    for ind, sps in spell.items():
+        for sp in sps:
+            for state, fulfilled in (("FULFILLED", True), ("UNFULFILLED", False), ("UNKNOWN", None)):
+                for soll in (True, False):
+                    want = documented_status(fulfilled, ind, soll)
+                    if want is None:
+                        continue
+                    evalimpl.set_cer(rc={"7": state})
+                    expr = f"{sp}[7]"
+                    seg = Segment(discriminator="SEG", ahb_expression=expr, data_elements=[])
+                    tag, v = evalimpl.outcome(lambda: asyncio.run(validate_segment_level(seg, soll)))
+                    got = "raises" if tag != "ok" and v == "NotImpl" else (v if tag != "ok" else v[0].validation_result.requirement_validation.name)
+                    n += 1
+                    if got != want:
+                        ctx.fail(f"mapping|seg|{expr}|{state}|{soll}", {"kind": "mapping", "entry": "validate_segment_level", "ahb_expression": expr, "condition_7": state, "soll_is_required": soll},
+                                 want, str(got), "oracle: own status = requirement indicator x requirement outcome per the documented mapping")
+                    # the same indicator on a free-text data element below a required segment
+                    seg2 = Segment(discriminator="SEG", ahb_expression="Muss", data_elements=[
+                        DataElementFreeText(discriminator="DE", ahb_expression=expr, entered_input="x", data_element_id="0001")])
+                    tag, v = evalimpl.outcome(lambda: asyncio.run(validate_segment(seg2, None, soll)))
+                    got = "raises" if tag != "ok" and v == "NotImpl" else (v if tag != "ok" else v[-1].validation_result.requirement_validation.name)
+                    want2 = want if want == "raises" else want + "_AND_FILLED"
+                    n += 1
+                    if got != want2:
+                        ctx.fail(f"mapping|de|{expr}|{state}|{soll}", {"kind": "mapping", "entry": "validate_segment", "segment": "Muss", "free_text_ahb_expression": expr, "condition_7": state,
+                                                                       "soll_is_required": soll}, want2, str(got),
+                                 "oracle: own status = requirement indicator x requirement outcome per the documented mapping (free-text element, FILLED suffix)")
+    return n
+
+
+def evaluated(node):
+    """(indicator name, requirement outcome) of the node's own expression under the installed content evaluation result, via ahbicht's AHB evaluation
+    (C09/C04 are checked separately); None if the expression cannot be evaluated (invalid: C16; unresolvable; ...)"""
+    from ahbicht.expressions.ahb_expression_evaluation import evaluate_ahb_expression_tree
+
+    res = valcorr.resolved(node[2])
+    if res[0] != "ok":
+        return None
+    tag, v = evalimpl.outcome(lambda: asyncio.run(evaluate_ahb_expression_tree(res[1])))
+    if tag != "ok":
+        return None
+    return (v.requirement_indicator.name, v.requirement_constraint_evaluation_result.requirement_constraints_fulfilled)
+
+
+class _OutOfOrder(Exception):
+    pass
+
+
 def oracle(ctx, case):
+    """the report is read as a stream: each node consumes its own row (position by position, so repeated discriminators are fine), then its
+    children consume theirs unless the node is reported forbidden; statuses are checked on the way"""
     tag, rows = valcorr.summarize(case["res"])
     if tag != "ok":
         return 0
     lines, soll = case["lines"], case["soll"]
     valcorr.reset_cer(case)
-    stat = {}
-    for d, rv, *_ in rows:
-        stat.setdefault(d, rv)
-    want = []
-    for n in lines:
-        want += expected_preorder(n, lambda d: stat.get(d))
-    got = [r[0] for r in rows]
     key = str(valcorr.describe(case))[:400]
-    if got != want:
-        ctx.fail(f"order|{key}", valcorr.describe(case), f"reported nodes {want}", f"{got}", "oracle: every node once, in document order, nothing below a forbidden node")
-        return 1
-    # dominance: own status (node validated alone) combined with the parent's reported status
+    pos = [0]
+    trace = []
 
-    def walk(node, parent):
+    def visit(node, parent):
         d = node[1]
-        if d not in stat:
-            return
-        mine = stat[d]
+        trace.append(d)
+        if pos[0] >= len(rows) or rows[pos[0]][0] != d:
+            raise _OutOfOrder()
+        mine = rows[pos[0]][1]
+        at = pos[0]
+        pos[0] += 1
         if parent != "IS_FORBIDDEN" and node[0] in ("G", "S", "F") and not (node[0] == "F" and parent is None):
             own = own_status(node, soll)
             if isinstance(own, tuple):
                 # the node has no status of its own (its evaluation aborts, e.g. UNKNOWN under MUSS): a report that lists it anyway made one up
                 if own[1] == "NotImpl":
-                    ctx.fail(f"status|{d}|{key}", dict(valcorr.describe(case), node=d), f"the run aborts with {own[1]} (the node validated on its own does)", f"reported as {mine}",
+                    ctx.fail(f"status|{d}|{key}", dict(valcorr.describe(case), node=d, row=at), f"the run aborts with {own[1]} (the node validated on its own does)", f"reported as {mine}",
                              "oracle: status = own status combined with the parent's per the documented table")
                 own = None
             if own is not None:
@@ -110,14 +175,36 @@ def oracle(ctx, case):
                     exp += "_AND_FILLED" if node[3] else "_AND_EMPTY"
                 # an invalid expression yields IS_OPTIONAL without suffix: own_status shows the same
                 if exp is not None and mine != exp and not (node[0] == "F" and mine == "IS_OPTIONAL"):
-                    ctx.fail(f"status|{d}|{key}", dict(valcorr.describe(case), node=d), f"{exp} (own {own} under parent {parent})", mine, "oracle: status = own status combined with the parent's per the documented table")
+                    ctx.fail(f"status|{d}|{key}", dict(valcorr.describe(case), node=d, row=at), f"{exp} (own {own} under parent {parent})", mine, "oracle: status = own status combined with the parent's per the documented table")
+            # the documented mapping itself: indicator x outcome of the node's expression, combined with the parent
+            ev = evaluated(node)
+            if ev is not None:
+                doc = documented_status(ev[1], ev[0], soll)
+                if doc == "raises":
+                    ctx.fail(f"mapping|{d}|{key}", dict(valcorr.describe(case), node=d, row=at), f"the run aborts with NotImplementedError ({ev[0]} with an undetermined outcome)", f"reported as {mine}",
+                             "oracle: a visited MUSS / prefix-operator node with an undetermined outcome aborts the run")
+                elif doc is not None:
+                    exp = COMBINE.get((parent, doc))
+                    if node[0] == "F" and exp is not None:
+                        exp += "_AND_FILLED" if node[3] else "_AND_EMPTY"
+                    if exp is not None and mine != exp:
+                        ctx.fail(f"mapping|{d}|{key}", dict(valcorr.describe(case), node=d, row=at), f"{exp} ({ev[0]}, outcome {ev[1]}, parent {parent})", mine,
+                                 "oracle: own status = requirement indicator x requirement outcome per the documented mapping, combined with the parent's status")
         if node[0] in ("G", "S") and mine != "IS_FORBIDDEN":
-            for c in node[3]:
-                if c[0] in ("G", "S", "F"):
-                    walk(c, mine)
+            kids = [c for c in node[3] if c[0] == "G"] + [c for c in node[3] if c[0] == "S"] if node[0] == "G" else node[3]
+            for c in kids:
+                visit(c, mine)
 
-    for n in lines:
-        walk(n, None)
+    try:
+        for n in lines:
+            visit(n, None)
+        if pos[0] != len(rows):
+            trace.append("<end of the document>")
+            raise _OutOfOrder()
+    except _OutOfOrder:
+        got = [r[0] for r in rows]
+        ctx.fail(f"order|{key}", valcorr.describe(case), f"document order, pruned below forbidden nodes: {trace[:-1]} then {trace[-1]!r} as row {pos[0]}", f"{got}",
+                 "oracle: every node once, in document order, nothing below a forbidden node")
     return 1
 
 
@@ -126,8 +213,10 @@ def run(ctx):
     translator_validation(ctx)
     cases = valcorr.validation_cases(ctx, 60 if ctx.quick else 1500, unknown=0.04)
     cases += valcorr.validation_cases(ctx, 40 if ctx.quick else 600, unknown=0.35)   # UNKNOWN outcomes at many nodes: the abort rule of the mapping
+    cases += valcorr.validation_cases(ctx, 40 if ctx.quick else 600, unknown=0.02, repeat_discriminators=0.3)   # discriminators are not unique in real AHBs
     valcorr.check_val_correspondence(ctx, cases, "C13")
     nontrivial = sum(oracle(ctx, c) for c in cases)
+    ctx.add_eval(mapping_oracle(ctx))
     ctx.coverage["distinct_nontrivial"] = nontrivial
     ctx.coverage["rule"] = ("random DeepAnwendungshandbuch trees (depth <= 4, mixed indicators, several modal marks, packages, hints, format constraints, value pools, some invalid / "
                             "unknown-producing expressions) x random content evaluation results x both values of soll_is_required through validate_deep_anwendungshandbuch; the whole "
